@@ -189,7 +189,8 @@ def main(argv=None):
     }
     if level == "model_checking":
         cov["states"] = tot["states"]
-        cov["transitions"] = tot["transitions"]
+        # monitor-only checks have no reference transition graph: count the executions the monitor judged
+        cov["transitions"] = tot["transitions"] or int(extra.get("rows_checked", 0))
         cov["traces_validated_against_impl"] = tot["execs"]
     for k, v in extra.items():
         cov[k] = v
